@@ -214,6 +214,30 @@ namespace nmtools::view
                 initial = op(initial,at(array,i));
             return initial;
         } // operator()
+
+        /**
+         * @brief value of a reduction over no element (a reduced axis of extent zero)
+         *
+         * Following numpy: the initial value if there is one, else the identity of the op;
+         * an op without identity has no such value (numpy raises an error).
+         *
+         * @tparam result_t
+         * @tparam initial_t
+         * @param init initial value, can be None
+         * @return constexpr auto
+         */
+        template <typename result_t, typename initial_t>
+        constexpr auto empty([[maybe_unused]] initial_t init) const
+        {
+            if constexpr (!is_none_v<initial_t>) {
+                return static_cast<result_t>(init);
+            } else if constexpr (meta::has_identity_v<op_type>) {
+                return static_cast<result_t>(op_type::identity());
+            } else {
+                nmtools_cassert( false, "zero-size array to reduction operation which has no identity" );
+                return result_t{};
+            }
+        } // empty
     }; // reducer_t
 
     /**
@@ -342,6 +366,10 @@ namespace nmtools::view
                     return view::apply_slice(array, slices);
                 }
             }();
+            // nothing to fold when a reduced axis has extent zero (and a zero-size array can not be flattened)
+            if (!static_cast<bool>(nmtools::size(unwrap(sliced)))) {
+                return reducer.template empty<result_type>(initial);
+            }
             // NOTE: use view::flatten to avoid ambiguous call because of ADL
             auto flattened = unwrap(view::flatten(sliced));
             // TODO: instead of reduce using reducer_t, return reduce using None axis
@@ -372,6 +400,10 @@ namespace nmtools::view
                 return num_type{};
             } else {
                 // reduce the whole array
+                // nothing to fold when the array has no element (and a zero-size array can not be flattened)
+                if (!static_cast<bool>(detail::size(array))) {
+                    return static_cast<num_type>(reducer.template empty<result_type>(initial));
+                }
                 // must check if array is pointer or not since
                 // flatten (and view in general) doesn't accept pointer
                 auto flattened = [&](){
@@ -481,6 +513,10 @@ namespace nmtools::view
         constexpr operator result_type() const
         {
             // reduce the whole array
+            // nothing to fold when the array has no element (and a zero-size array can not be flattened)
+            if (!static_cast<bool>(detail::size(array))) {
+                return static_cast<result_type>(reducer.template empty<result_type>(initial));
+            }
             // must check if array is pointer or not since
             // flatten (and view in general) doesn't accept pointer
             auto flattened = [&](){
@@ -502,6 +538,10 @@ namespace nmtools::view
         constexpr auto operator()(size_types.../*indices*/) const
         {
             // reduce the whole array
+            // nothing to fold when the array has no element (and a zero-size array can not be flattened)
+            if (!static_cast<bool>(detail::size(array))) {
+                return reducer.template empty<result_type>(initial);
+            }
             auto flattened = [&](){
                 if constexpr (meta::is_pointer_v<array_type>) {
                     return unwrap(view::flatten(*array));
